@@ -12,6 +12,7 @@ tvars == <<vars, l>>
 
 Matches(r) ==
   /\ st' = [n \in Node |-> r.st[n]]
+  /\ syncing' = {n \in Node : r.insync[n]}        \* the sync set of the real nodes (NamespaceStates::is_syncing)
   /\ resync' = [n \in Node |-> r.resync[n]]
   \* dials started by the real handlers = dials appended by the action
   /\ Len(dials') = Len(dials) + Len(r.started)
@@ -29,6 +30,10 @@ Act(r) ==
     [] r.ev = "EndAcceptor" -> EndAcceptor(r.d, r.res)
     [] r.ev = "HandleConnectDone" -> HandleConnectDone(r.d) /\ dials[r.d].cres = r.res
     [] r.ev = "HandleAcceptDone" -> HandleAcceptDone(r.d) /\ dials[r.d].ares = r.res
+    [] r.ev = "Leave" -> Leave(r.n)
+    [] r.ev = "Join" -> Join(r.n, Len(r.started) = 1)
+    [] r.ev = "QueueDownload" -> QueueDownload(r.n)
+    [] r.ev = "DownloadReady" -> DownloadReady(r.n, r.res = "ok")
     [] OTHER -> FALSE
 
 TInit == Init /\ l = 1
@@ -37,7 +42,8 @@ TStep ==
   /\ LET r == Rec[l] IN
      IF r.ev = "Reset"
      THEN /\ st' = [n \in Node |-> "Idle"] /\ resync' = [n \in Node |-> FALSE] /\ dials' = <<>>
-          /\ syncing' = {r.syncing[i] : i \in 1..Len(r.syncing)}
+          /\ syncing' = {r.syncing[i] : i \in 1..Len(r.syncing)} /\ syncing0' = syncing'
+          /\ pend' = [n \in Node |-> FALSE] /\ leaves' = 0
           /\ owed' = [n \in Node |-> FALSE] /\ bad' = {} /\ hist' = <<>>
      ELSE Act(r) /\ Matches(r)
   /\ l' = l + 1
